@@ -36,6 +36,7 @@ type c15Var struct {
 type c15World struct {
 	classes []c15Class
 	aliases []c15Alias
+	wrapAl  []string // extra alias lines (aliases of T[] / table<K,V>, and aliases of those), kept out of the class graph
 	vars    []c15Var
 	split   bool // some class is declared in more than one file
 	selfPar bool
@@ -113,7 +114,30 @@ func genC15World(r *lib.Rng) *c15World {
 	nV := 2 + r.Intn(4)
 	for i := 0; i < nV; i++ {
 		v := c15Var{name: fmt.Sprintf("v%d", i)}
-		switch r.Intn(5) {
+		switch r.Intn(7) {
+		case 5, 6:
+			// the wrapper is reached through an alias (possibly an alias of an alias)
+			t := anyName()
+			wa := fmt.Sprintf("WAl%d", i)
+			kcls := w.classes[r.Intn(nC)].name
+			isMap := r.Chance(1, 2)
+			if isMap {
+				w.wrapAl = append(w.wrapAl, "---@alias "+wa+" table<"+kcls+", "+t+">")
+			} else {
+				w.wrapAl = append(w.wrapAl, "---@alias "+wa+" "+t+"[]")
+			}
+			name := wa
+			if r.Chance(1, 2) {
+				name = wa + "b"
+				w.wrapAl = append(w.wrapAl, "---@alias "+name+" "+wa)
+			}
+			v.typ, v.roots = name, []string{t}
+			v.query = fmt.Sprintf("e%d", i)
+			if isMap {
+				v.extra = fmt.Sprintf("local e%d = v%d.somekey", i, i)
+			} else {
+				v.extra = fmt.Sprintf("local e%d = v%d[1]", i, i)
+			}
 		case 0:
 			t := anyName()
 			v.typ, v.roots = t+"[]", []string{t}
@@ -159,6 +183,10 @@ func (w *c15World) render() (map[string]string, map[string][]string) {
 	for _, a := range w.aliases {
 		lines[a.file] = append(lines[a.file], "---@alias "+a.name+" "+strings.Join(a.targets, " | "), "")
 	}
+	for i, l := range w.wrapAl {
+		f := []string{"a.lua", "b.lua", "main.lua"}[i%3]
+		lines[f] = append(lines[f], l, "")
+	}
 	m := lines["main.lua"]
 	for _, v := range w.vars {
 		m = append(m, "---@type "+v.typ, "local "+v.name+" = {}")
@@ -191,7 +219,7 @@ func runC15(res *lib.Result, tier string, seed int64, args []string) error {
 	if tier == "thorough" {
 		nW = 2500
 	}
-	res.Rule = "generated annotation worlds over three files: 3-7 classes with fields, 0-2 parents each in any direction (multiple inheritance, diamonds, cycles, self-parents), classes declared in two files, 0-3 aliases of classes / aliases / unions / undeclared names (chains and cycles), variables typed by a class, an alias, a union, T[] or table<string,T> (queried through an element variable); the real member completion after 'x.' must offer EXACTLY the ---@field members of the classes in the Lean closure (theorem closure_exact) of the type's names, and go-to-definition on 'x.member' must lead to a ---@field line of that member; no request may crash or time out; non-trivial = the expected member set is non-empty; distinct by (world, variable)"
+	res.Rule = "generated annotation worlds over three files: 3-7 classes with fields, 0-2 parents each in any direction (multiple inheritance, diamonds, cycles, self-parents), classes declared in two files, 0-3 aliases of classes / aliases / unions / undeclared names (chains and cycles), variables typed by a class, an alias, a union, T[] or table<K,T> — written directly or reached through one or two aliases — (wrappers are queried through an element variable); the real member completion after 'x.' must offer EXACTLY the ---@field members of the classes in the Lean closure (theorem closure_exact) of the type's names, and go-to-definition on 'x.member' must lead to a ---@field line of that member; no request may crash or time out; non-trivial = the expected member set is non-empty; distinct by (world, variable)"
 	drv, err := lib.StartDriver()
 	if err != nil {
 		return err
